@@ -18,7 +18,9 @@ def _hs():
                     desc="K1 guard lemma: real span!(%s)" % l.upper(), sym=sym1))
         hs.append(H("c01::c01_k3_span_%s" % l, tier="quick" if l in Q_SPANS else "thorough",
                     desc="K3 composition for span!(%s)" % l.upper(), sym=sym1))
-    for n, t in (("event_root_info", "thorough"), ("info_shorthand", "thorough"), ("trace_span_shorthand", "thorough")):
+    for n, t in (("event_root_info", "thorough"), ("info_shorthand", "thorough"), ("trace_span_shorthand", "thorough"),
+                 ("span_root_info", "quick"), ("span_target_parent_debug", "thorough"), ("event_name_target_parent_warn", "thorough"),
+                 ("event_name_target_debug", "thorough"), ("event_name_parent_info", "quick"), ("event_name_trace", "thorough")):
         hs.append(H("c01::c01_k1_" + n, tier=t, desc="K1 for macro form " + n, sym=sym1))
         hs.append(H("c01::c01_k3_" + n, tier=t, desc="K3 for macro form " + n, sym=sym1))
     hs.append(H("c01::c01_k1_enabled_warn", tier="quick", desc="enabled!(WARN) = guard && verdict, delivers nothing", sym=sym1))
@@ -54,7 +56,7 @@ SPEC = {
                   "tracing_core::dispatch::{get_default, Registrar::upgrade, Dispatch::{enabled, event, new_span, register_callsite, max_level_hint}}",
                   "Interest::and, LevelFilter::{current, set_max}, Event::dispatch, Span::new"],
     "sym": "cached interest, global max level, collector's registration answer / hint / dynamic verdict, registration state",
-    "bounds": "K1/K3: one callsite per macro form x level, one current collector; K2: 0-3 registrars (live) + one dropped, one registered callsite; unwind 2-6 with unwinding assertions",
+    "bounds": "K1/K3: one callsite per macro form (every span!/event! arm that carries its own guard: 2 + 6, plus shorthands and enabled!) x level, one current collector; K2: 0-3 registrars (live) + one dropped, one registered callsite; unwind 2-6 with unwinding assertions",
     "outside": "> 3 collectors; end-to-end histories through Dispatch::new (register_dispatch does not finish in CBMC: replaced by the inductive K2 on harness-owned registrar lists); STATIC_MAX_LEVEL other than the default feature set; real-thread schedules (C04)",
     "stubs": ["std::rt::thread_cleanup -> no-op", "core::fmt::write -> Ok(())", "once_cell::sync::Lazy shim", "H1 wrappers (forwarders), H4 MacroCallsite state setter", "unregistered Dispatch constructor"],
     "assumptions": ["compositional: K1 (guard formula) + K2 (INV established by every rebuild) + K3 (INV & self-consistent filter => iff) imply the property for every cache state INV allows",
